@@ -261,6 +261,9 @@ type TaskMaster struct {
 
 	// DeleteHooks for tasks
 	deleteHooks map[string][]deleteHook
+	// deleteHooksMu guards deleteHooks. It is not tm.mu because nodes register their
+	// hooks from their own goroutine while StopTask may hold tm.mu waiting for that node.
+	deleteHooksMu sync.Mutex
 
 	diag Diagnostic
 
@@ -627,15 +630,17 @@ func (tm *TaskMaster) stopTask(id string) (err error) {
 // internal deleteTask function. The caller must have acquired
 // the lock in order to call this function
 func (tm *TaskMaster) deleteTask(id string) {
+	tm.deleteHooksMu.Lock()
 	hooks := tm.deleteHooks[id]
+	tm.deleteHooksMu.Unlock()
 	for _, deleteHook := range hooks {
 		deleteHook(tm)
 	}
 }
 
 func (tm *TaskMaster) registerDeleteHookForTask(id string, hook deleteHook) {
-	tm.mu.Lock()
-	defer tm.mu.Unlock()
+	tm.deleteHooksMu.Lock()
+	defer tm.deleteHooksMu.Unlock()
 	tm.deleteHooks[id] = append(tm.deleteHooks[id], hook)
 }
 
